@@ -20,7 +20,11 @@ FIXED = [[9001, 0, 'meet', 1200, '--pika:threads=1', '--pika:scheduler=local-pri
          [9004, 0, 'burst', 10, '--pika:threads=4', '--pika:scheduler=shared-priority'],
          [9005, 0, 'burst', 6, '--pika:threads=2', '--pika:scheduler=local-priority-fifo'],
          [9006, 0, 'burst', 6, '--pika:threads=3', '--pika:scheduler=static'],
-         [9007, 0, 'burst', 6, '--pika:threads=2', '--pika:scheduler=abp-priority-lifo']]
+         [9007, 0, 'burst', 6, '--pika:threads=2', '--pika:scheduler=abp-priority-lifo'],
+         # 'stale': interrupt() on finished threads, then batches of yielding threads on the recycled objects
+         [9008, 0, 'stale', 2, '--pika:threads=2', '--pika:scheduler=local-priority-fifo'],
+         [9009, 0, 'stale', 4, '--pika:threads=1', '--pika:scheduler=static-priority'],
+         [9010, 100, 'stale', 2, '--pika:threads=4', '--pika:scheduler=abp-priority-fifo']]
 
 
 def zoo_runs(rng, tier):
